@@ -1,5 +1,6 @@
 """Numeric instantiation of TLC-generated structures: random, in-range component parameters
 (DESIGN section 5: |V| in [0.5, 1000], loads >= 1 uA, modest series drops), constant or tabulated."""
+import copy
 import math
 
 
@@ -148,7 +149,7 @@ class Gen:
             elif cls == "VLoss" and not isinstance(P["vdrop"], dict):
                 P["vdrop"] = _r((P["vdrop"] or 0.1) * f, 4)
         lim = self.limits(cls, name, rng) if self.limits else None
-        self.made[name] = {"cls": cls, "limits": lim}
+        self.made[name] = {"cls": cls, "limits": copy.deepcopy(lim)}    # (a copy: a constructor must not be trusted to leave its argument alone)
         return {"cls": cls, "name": name, "params": P, "limits": lim}
 
     def phase_value(self, cls, rng=None):
